@@ -9,6 +9,7 @@
 #include <setjmp.h>
 #include <sys/time.h>
 #include <fcntl.h>
+#include <stdio_ext.h>
 #include "mcread_fmt.h"
 #include "mcread_layout.h"
 #include "mcread_gen.h"
@@ -56,7 +57,8 @@ static verdict_t *VS;                        /* shared page: verdict of a case r
 /* results land in globals so that they survive the longjmp out of a spinning reader */
 static int_t r_m, r_n, r_nnz; static scalar_t *r_val; static int_t *r_row, *r_col;
 static sigjmp_buf HJ; static volatile sig_atomic_t h_armed; static double h_cpu0;
-#define HANG_CPU_S 0.0015
+static double HANG_CPU_S = 0.0015;
+#define CASE_CPU_S 2
 static double cpu_s(void) { struct timespec t; clock_gettime(CLOCK_PROCESS_CPUTIME_ID, &t); return t.tv_sec + 1e-9 * t.tv_nsec; }
 static void h_stop(void) { struct itimerval z; memset(&z, 0, sizeof z); h_armed = 0; setitimer(ITIMER_REAL, &z, NULL); }
 /* armed when the reader asks for input beyond the end of the file: a reader that is still burning CPU 1.5 ms later is
@@ -79,7 +81,13 @@ static ssize_t ck_read(void *c, char *b, size_t sz) {
 }
 static int ck_close(void *c) { ((ck_t *)c)->closed = 1; return 0; }
 
+/* deterministic stale stack under the reader's frames: what the reader finds in its uninitialised buffers must not depend
+ * on which case ran before (ASCII '7': a forgotten terminator then shows, a NUL fill would hide it) */
+static void __attribute__((noinline)) scrub_stack(void) { volatile char a[160000]; memset((void *)a, '7', sizeof a); __asm__ volatile("" ::: "memory"); }
+/* an absurd array size read from a misparsed header must fail fast instead of being allocated and filled */
+const char *__asan_default_options(void) { return "max_allocation_size_mb=512:allocator_may_return_null=1"; }
 static void call_reader(int rd) {
+    scrub_stack();
     r_m = r_n = r_nnz = -777; r_val = NULL; r_row = NULL; r_col = NULL;
     if (rd == RD_HB) Xreadhb(&r_m, &r_n, &r_nnz, &r_val, &r_row, &r_col);
     else if (rd == RD_RB) Xreadrb(&r_m, &r_n, &r_nnz, &r_val, &r_row, &r_col);
@@ -95,6 +103,7 @@ static int read_mem(int rd) {
     cookie_io_functions_t io = { ck_read, NULL, NULL, ck_close };
     ck.p = TX; ck.n = TXN; ck.pos = 0; ck.eofs = 0; ck.closed = 0;
     f = fopencookie(&ck, "r", io); saved = stdin;
+    __fsetlocking(f, FSETLOCKING_BYCALLER);                 /* single-threaded; an abandoned stream must not keep a lock */
     if (sigsetjmp(HJ, 1)) { stdin = saved; return 1; }      /* the abandoned stream is leaked on purpose */
     stdin = f;
     call_reader(rd);
@@ -179,7 +188,7 @@ static void run_text(int rd, verdict_t *V) {
         if (read_mem(rd)) { V->status = ST_HANG; strcpy(V->clause, "hang"); snprintf(V->detail, sizeof V->detail, "the reader asked for input beyond the end of the file and then kept spinning (no progress for %.1f ms of CPU)", HANG_CPU_S * 1e3); free_result(); return; }
         judge(V); free_result(); return;
     }
-    memset(VS, 0, sizeof *VS); VS->status = -1; fflush(NULL);
+    memset(VS, 0, sizeof *VS); VS->status = -1; fflush(vf_out);
     if (vf_sh) vf_sh->where[0] = 0;
     pid_t pid = fork();
     if (pid == 0) {
